@@ -290,6 +290,17 @@ def lower(e, doc, via_doc=True):
     if n == 'strict':
         # doc: sor< not_at< R1 >, seq< R... > >
         return L(E('sor', [E('not_at', [a[0]]), E('seq', a)]))
+    if n == 'named':
+        return E('named', [a[0], L(seqof(a[1:]))])
+    if n in ('try_catch_raise_nested', 'try_catch_any_raise_nested', 'try_catch_std_raise_nested', 'try_catch_type_raise_nested'):
+        what = {'try_catch_raise_nested': E('parse_error_base'), 'try_catch_any_raise_nested': E('any_type'), 'try_catch_std_raise_nested': E('std_exception')}.get(n)
+        rules = a
+        if what is None:
+            what, rules = a[0], a[1:]
+        if not rules:
+            return E('success')
+        blamed = rules[0] if len(rules) == 1 else E('seq', rules)
+        return E('tcrn', [what, L(seqof(rules)), I(default_rid(blamed) & 0xffffffff)])
     if n == 'try_catch_return_false':
         return E('tcrf', [E('parse_error_base'), L(seqof(a))])   # public alias catches tao::pegtl::parse_error_base only
     if n == 'try_catch_any_return_false':
@@ -392,6 +403,24 @@ class Gen:
             L.append('    if (q == q0) return sp_div(q); }')
             L.append('  return sp_div(q);')
             return '\n'.join(L)
+        if n == 'named':
+            return '  return %s(p);' % s.fn(a[1])
+        if n == 'tcrn':
+            what = a[0].name
+            f = s.fn(a[1])
+            r = ival(a[2])
+            if r >= 0x80000000:
+                r -= 0x100000000
+            if what in ('void', 'any_type'):
+                cond = 'a.r == 2 || a.r == 3'
+            elif what.endswith('verif_exc'):
+                cond = 'a.r == 2'
+            elif what.endswith('foreign_exc'):
+                cond = 'a.r == 3'
+            else:
+                cond = '0'
+            # converted into a new global failure raised through Control< Rule >::raise_nested with the START position
+            return ('  out_t a = %s(p); if (%s) { out_t x = { 2, p, %d, p, p }; return x; } return a;' % (f, cond, 5000 + r))
         if n == 'tcrf':
             what = a[0].name
             f = s.fn(a[1])
@@ -413,6 +442,8 @@ class Gen:
 def default_rid(e):
     if e.name == 'sym':
         return ival(e.args[0])
+    if e.name == 'named':
+        return 100 + ival(e.args[0])
     return -1
 
 
